@@ -30,6 +30,8 @@ pub const TEXTS: &[&str] = &[
     // so names with different texts share a start address
     "some",
     "some_longer",
+    // longer than any plausible "short string" threshold (201 bytes)
+    "L234567890123456789012345678901234567890123456789012345678901234567890123456789012345678901234567890_234567890123456789012345678901234567890123456789012345678901234567890123456789012345678901234567890",
 ];
 
 /// Texts a `Node<str>` can hold: every name text plus strings that are not names (the empty
@@ -153,6 +155,10 @@ pub enum Op {
     NodeGetMut(u8, u64),
     NodeSameLocation(u8, u8, u64),
     NodeCompare(u8, u8),
+    /// names that are not valid GraphQL names, made with the unchecked constructors (documented:
+    /// "may cause invalid document serialization but not memory-safety issues"): created, cloned,
+    /// compared with each other and with a slot name, hashed, dropped
+    Odd(u8, u8),
     /// clone the name in a slot many times (10 / 300 / 5 000 / 70 000) into the bulk store
     BulkClone(u8, u8),
     /// drop the bulk store (0) or its older half (1)
@@ -196,6 +202,7 @@ impl Op {
             Op::NodeGetMut(a, v) => format!("Ng {a} {v}"),
             Op::NodeSameLocation(a, b, v) => format!("Ns {a} {b} {v}"),
             Op::NodeCompare(a, b) => format!("Ncmp {a} {b}"),
+            Op::Odd(a, k) => format!("odd {a} {k}"),
             Op::BulkClone(a, k) => format!("bc {a} {k}"),
             Op::BulkDrop(k) => format!("bd {k}"),
             Op::StrNew(a, t, l) => format!("Sn {a} {t} {}", loc(l)),
@@ -243,6 +250,7 @@ impl Op {
             "Ng" => Op::NodeGetMut(u8_(1)?, u64_(2)?),
             "Ns" => Op::NodeSameLocation(u8_(1)?, u8_(2)?, u64_(3)?),
             "Ncmp" => Op::NodeCompare(u8_(1)?, u8_(2)?),
+            "odd" => Op::Odd(u8_(1)?, u8_(2)?),
             "bc" => Op::BulkClone(u8_(1)?, u8_(2)?),
             "bd" => Op::BulkDrop(u8_(1)?),
             "Sn" => Op::StrNew(u8_(1)?, u8_(2)?, loc(3)?),
@@ -325,7 +333,7 @@ pub fn gen_op_cfg(rng: &mut Rng, cfg: &GenCfg) -> Op {
             1 => rng.below(1000) as u32,
             2 => u32::MAX / 2,
             // the end offset (start + len) must still fit u32
-            _ => u32::MAX - 64,
+            _ => u32::MAX - 256,
         }
     }
     let kind = match cfg.focus {
@@ -338,7 +346,11 @@ pub fn gen_op_cfg(rng: &mut Rng, cfg: &GenCfg) -> Op {
         3 => Op::NewStatic(n(rng), t(rng)),
         4 => {
             if rng.chance(1, 3) {
-                Op::NewInvalid(rng.below(6) as u8)
+                if rng.chance(1, 2) {
+                    Op::Odd(n(rng), rng.below(64) as u8)
+                } else {
+                    Op::NewInvalid(rng.below(6) as u8)
+                }
             } else {
                 Op::FromString(n(rng), t(rng), rng.below(4) as u8)
             }
@@ -981,6 +993,50 @@ impl Pool {
                     }
                     self.count("op.node_compare");
                 }
+            }
+            Op::Odd(a, k) => {
+                const ODD: [&str; 4] = ["", "a-b", "\u{e9}", "two words"];
+                let make = |how: u8, text: &'static str| -> Name {
+                    match how % 3 {
+                        0 => Name::new_unchecked(text),
+                        1 => Name::new_static_unchecked(text),
+                        _ => Name::from_arc_unchecked(Arc::from(text)),
+                    }
+                };
+                let (ta, tb) = (ODD[(k & 3) as usize], ODD[((k >> 2) & 3) as usize]);
+                let x = make(k >> 4, ta);
+                let y = make((k >> 4) + 1 + (k & 1), tb);
+                let x2 = x.clone().with_location(span(3, 0, ta.len() as u32));
+                let mut pairs: Vec<(&Name, &str)> = vec![(&x, ta), (&y, tb), (&x2, ta)];
+                let slot_text;
+                if let Some(m) = &self.m_names[a as usize] {
+                    slot_text = TEXTS[m.text as usize];
+                    pairs.push((self.names[a as usize].as_ref().unwrap(), slot_text));
+                }
+                for (n, t) in &pairs {
+                    if n.as_str() != *t || n.len() != t.len() || n.is_empty() != t.is_empty() {
+                        return Err(problem("text_mismatch", format!("unchecked name reads {:?}, made from {t:?}", lossy(n.as_str()))));
+                    }
+                    if hash_of(*n) != hash_of(*t) || **n != **t {
+                        return Err(problem("eq_ord_hash", format!("unchecked name {t:?} does not hash / compare like its text")));
+                    }
+                }
+                for (n1, t1) in &pairs {
+                    for (n2, t2) in &pairs {
+                        if (n1 == n2) != (t1 == t2) || n1.cmp(n2) != t1.cmp(t2) || (hash_of(*n1) == hash_of(*n2)) != (t1 == t2) {
+                            return Err(problem(
+                                "eq_ord_hash",
+                                format!("unchecked names {t1:?} and {t2:?}: eq {} cmp {:?}", n1 == n2, n1.cmp(n2)),
+                            ));
+                        }
+                    }
+                }
+                let set: std::collections::HashSet<Name> = pairs.iter().map(|(n, _)| (*n).clone()).collect();
+                let distinct: std::collections::BTreeSet<&str> = pairs.iter().map(|(_, t)| *t).collect();
+                if set.len() != distinct.len() || distinct.iter().any(|t| !set.contains(*t)) {
+                    return Err(problem("eq_ord_hash", "a HashSet<Name> of unchecked names does not behave like a set of their texts".into()));
+                }
+                self.count("op.odd_names");
             }
             Op::BulkClone(a, k) => {
                 let a = a as usize;
